@@ -33,6 +33,64 @@ def _local_defs(f, name):
     return [s for s in A.walk_stmts(f.node.body) if isinstance(s, ast.Assign) and any(isinstance(t, ast.Name) and t.id == name for t in s.targets)]
 
 
+class _Resolver:
+    """Substitutes the definitions of helper variables: a name is a symbol (random rational), or has exactly one definition in
+    the function - a plain assignment, or one position of a tuple returned by a module-level helper called with the function's
+    own values (the helper's body is resolved the same way, its parameters bound to the call's arguments)."""
+
+    def __init__(self, repo, func, point, depth=0):
+        self.repo, self.func, self.depth = repo, func, depth
+        self.env = dict(point)
+
+    def _names(self, e):
+        return [n.id for n in ast.walk(e) if isinstance(n, ast.Name) and n.id not in _NOT_VARS]
+
+    def resolve(self, name):
+        if name in self.env:
+            return
+        if self.depth > 3:
+            raise AnalysisError(f"{self.func.key}: definitions nested too deeply at `{name}`")
+        fn = self.func.node
+        plain = [s for s in A.walk_stmts(fn.body) if isinstance(s, ast.Assign) and any(isinstance(t, ast.Name) and t.id == name for t in s.targets)]
+        tup = [(s, [e.id if isinstance(e, ast.Name) else None for e in s.targets[0].elts].index(name)) for s in A.walk_stmts(fn.body)
+               if isinstance(s, ast.Assign) and isinstance(s.targets[0], ast.Tuple) and any(isinstance(e, ast.Name) and e.id == name for e in s.targets[0].elts)]
+        if len(plain) == 1 and not tup:
+            for n in self._names(plain[0].value):
+                self.resolve(n)
+            self.env[name] = exprs.feval(plain[0].value, self.env)
+            return
+        if len(tup) == 1 and not plain and isinstance(tup[0][0].value, ast.Call) and isinstance(tup[0][0].value.func, ast.Name):
+            st, idx = tup[0]
+            helper = self.repo.funcs.get(f"{self.func.module.name}:{st.value.func.id}")
+            if helper is not None:
+                rets = [r for r in A.walk_stmts(helper.node.body) if isinstance(r, ast.Return)]
+                if len(rets) == 1 and isinstance(rets[0].value, ast.Tuple) and idx < len(rets[0].value.elts):
+                    # bind the helper's parameters to the call's arguments, evaluated here
+                    sub = _Resolver(self.repo, helper, {k: v for k, v in self.env.items() if k in SYMS}, self.depth + 1)
+                    params = [a.arg for a in helper.node.args.args]
+                    for pname, arg in list(zip(params, st.value.args)) + [(k.arg, k.value) for k in st.value.keywords if k.arg]:
+                        if pname in sub.env:
+                            continue
+                        try:
+                            for n in self._names(arg):
+                                self.resolve(n)
+                            sub.env[pname] = exprs.feval(arg, self.env)
+                        except AnalysisError:
+                            pass  # an argument the bound does not depend on (e.g. the tilt angle behind tilt_tan)
+                    e = rets[0].value.elts[idx]
+                    for n in sub._names(e):
+                        sub.resolve(n)
+                    self.env[name] = exprs.feval(e, sub.env)
+                    return
+        raise AnalysisError(f"{self.func.key}: `{name}` used in the bound test has {len(plain)} plain / {len(tup)} tuple definitions; cannot substitute")
+
+    def env_for(self, expr_list):
+        for e in expr_list:
+            for n in self._names(e):
+                self.resolve(n)
+        return self.env
+
+
 def d2_bound_is_the_rectangle(ctx, f, g, conj):
     """Each conjunct `abs(E) <= B` of the guard is the SAME inequality as the documented one
     |x - (y/aspect)/tan(tilt+pi/2)| <= x_range/2 resp. |y| <= y_range/2: E/B and the reference ratio are equal
@@ -49,25 +107,7 @@ def d2_bound_is_the_rectangle(ctx, f, g, conj):
             ctx.ob(rule, cname(f, None, f"conjunct `{A.short(c, 60)}`"), False, "the bound test is not of the form abs(offset) <= half-range", where=where(f, g))
 
     def env_for(pt):
-        env = dict(pt)
-
-        def resolve(name, depth=0):
-            if name in env:
-                return
-            defs = _local_defs(f, name)
-            if len(defs) != 1 or depth > 4:
-                raise AnalysisError(f"{f.key}: `{name}` used in the bound test has {len(defs)} definitions; cannot substitute")
-            for n in ast.walk(defs[0].value):
-                if isinstance(n, ast.Name) and n.id not in _NOT_VARS:
-                    resolve(n.id, depth + 1)
-            env[name] = exprs.feval(defs[0].value, env)
-
-        for e, b, _ in parsed:
-            for part in (e, b):
-                for n in ast.walk(part):
-                    if isinstance(n, ast.Name) and n.id not in _NOT_VARS:
-                        resolve(n.id)
-        return env
+        return _Resolver(ctx.repo, f, pt).env_for([x for e, b, _ in parsed for x in (e, b)])
 
     pts = list(exprs.random_points(SYMS, 8, signed=("x", "y", "tilt_tan")))
     matched = {}
